@@ -13,9 +13,9 @@ EXPLANATION = ('What the code asks the filesystem for, on every path: (R09.1) th
                'lookup, after open:Ok every path to the hit exit runs the re-touch probe; after a successful stat every such path '
                'tests a predicate implied by atime < mtime (decided over the three orderings), and on its true edge the atime update '
                'follows; (R09.4) the insertion stamp is utimens(source, atime = from_unix_time(secs(now) - D, nanos(now)), mtime = '
-               'now) with D a constant >= 3 s; (R09.5) put on an existing key touches it (= R04.2); (R09.7) in put, the only effects whose object is (directory + key) are the exclusive link and the atime touch: no rename onto it, utimens with an mtime, chmod, writable open or unlink; (R09.6) the read mark maintenance tests is true for atime == mtime, which is what a touch may leave on a coarse-granularity filesystem. Timestamp behaviour of real '
+               'now) with D a constant >= 3 s; (R09.5) put on an existing key touches it (= R04.2); (R09.7) in put, the only effects whose object is (directory + key) are the exclusive link and the atime touch: no rename onto it, utimens with an mtime, chmod, writable open or unlink; (R09.8) after the source received its insertion stamp no other file of the directory is re-stamped before the publish (maintenance runs before the stamp, so the new entry is the newest); (R09.6) the read mark maintenance tests is true for atime == mtime, which is what a touch may leave on a coarse-granularity filesystem. Timestamp behaviour of real '
                'filesystems is not decided.')
-FLOORS = {'R09.7': 3, 'R09.6': 1, 'R09.1': 8, 'R09.2': 2, 'R09.3': 4, 'R09.4': 2, 'R09.5': 1}
+FLOORS = {'R09.8': 2, 'R09.7': 3, 'R09.6': 1, 'R09.1': 8, 'R09.2': 2, 'R09.3': 4, 'R09.4': 2, 'R09.5': 1}
 
 LOOKUPS = ['plain::Cache::get', 'plain::Cache::touch', 'sharded::Cache::get', 'sharded::Cache::touch', 'raw_cache::touch',
            'raw_cache::ensure_file_touched']
@@ -219,6 +219,28 @@ def r09_7(ctx):
     return out
 
 
+def r09_8(ctx):
+    """the inserted entry carries the newest queue position in its directory: once the source has been given its
+    insertion stamp (mtime = now), the same operation stamps no other file of the directory with a later "now" before the
+    publish -- i.e. the maintenance that re-stamps reprieved entries never runs between the stamp and the publish."""
+    out = []
+    m = ctx.cachedir_methods()
+    for role in ('set', 'put'):
+        q = ctx.explore(m[role])
+        stamp = [e for e in q.prim_edges('meta_times') if path_class(ctx, q, arg_role(q.E[e][2], 'path')) == 'Value']
+        restamp = [e for e in q.prim_edges({'meta_times', 'meta_times_h'}) if e not in stamp
+                   and path_class(ctx, q, arg_role(q.E[e][2], 'path') if arg_role(q.E[e][2], 'path') is not None else arg_role(q.E[e][2], 'handle')) not in ('Value',)
+                   and arg_role(q.E[e][2], 'mtime') is not None and VAL[arg_role(q.E[e][2], 'mtime')][0:3] != ('agg', 'std::option::Option', 'v0')]
+        late = q.never_after(outcomes(q, stamp, 'Ok'), restamp)
+        ok = bool(stamp) and not late
+        out.append(inst('R09.8', 'cachedir.%s' % role, ok,
+                        'no other file is given a fresh modification time after the source got its insertion stamp (%d re-stamp sites, all before)' % len(restamp) if ok else
+                        ('%s stamps another file (%s) with a fresh mtime after the new entry\'s own stamp: survivors of that maintenance are newer than the entry just written'
+                         % (role, q.E[late[0][1]][2]['site'][2]) if late else 'insertion stamp not found'),
+                        path=witness_path(q, late[0][1]) if late else []))
+    return out
+
+
 def run(ctx):
     from runner import collect
-    return collect(ctx, r09_1, r09_2, r09_3, r09_4, r09_5, r09_6, r09_7)
+    return collect(ctx, r09_1, r09_2, r09_3, r09_4, r09_5, r09_6, r09_7, r09_8)
